@@ -51,10 +51,10 @@ const allPointsUpTo = 4096
 
 var checker = &vk.Checker[Case]{
 	ID: "C07",
-	Rule: "frames from C06's generator (all message kinds, versions, payload lengths <= 300) and frames whose length has a log-uniform magnitude or is a multiple of a round piece size (512, 1000, 1460, 4096, 10000, 12288 ... 10^6) -+ the header, up to 4096 bytes with all points and up to 128 KiB (2 MiB thorough) with sampled points: for EVERY cut point 0<=k<L (all k when L<=4096, else {0,1,31,32,33,L-1}, 96 keyed points (256 for multi-MiB frames) and every multiple j*q, j<=16 (j<=8 for multi-MiB frames), of every power of two q>=512 and of q=1000,10^4,10^5,10^6, counted from the frame and from the body start, +-1; the grid holds frames of 40 KB, 100 KB, 1 MiB and 3 MiB and one frame of 24 KB (64 KB thorough) with ALL its cut points) x reader {whole, 1-byte (chunked for frames above 16 KiB), and (frames up to 4096 bytes) bufio.Reader, bytes.Reader, bytes.Buffer, strings.Reader, io.LimitReader, iotest.DataErrReader, iotest.HalfReader}: Unmarshal never succeeds, n == k == bytes handed out, cause io.EOF for k=0, io.ErrUnexpectedEOF otherwise (either for k=32), ReadHeader likewise for k<32; " +
-		"for EVERY writer failure point k<L x writer flavour {the call crossing k bytes returns a short count with an injected error | the call ENDING at k bytes returns its full count with the error (also k=L)} x {broken for good | transient: later Writes are accepted and land in the sink}: Marshal returns (k, that error) and the sink holds exactly the first k bytes (nothing handed over after the failure); for EVERY reader error point k<=L (sticky non-EOF error delivered with or after the last good byte, five chunkings): n == k and the injected cause when k<L, success at k=L; " +
+	Rule: "frames from C06's generator (all message kinds, versions, payload lengths <= 300) and frames whose length has a log-uniform magnitude or is a multiple of a round piece size (512, 1000, 1460, 4096, 10000, 12288 ... 10^6) -+ the header, up to 4096 bytes with all points and up to 128 KiB (2 MiB thorough) with sampled points: for EVERY cut point 0<=k<L (all k when L<=4096, else {0,1,31,32,33,L-1}, 96 keyed points (256 for multi-MiB frames) and every multiple j*q, j<=16 (j<=8 for multi-MiB frames), of every power of two q>=512 and of q=1000,10^4,10^5,10^6, counted from the frame and from the body start, +-1; the grid holds frames of 40 KB, 100 KB, 1 MiB and 3 MiB and one frame of 24 KB (64 KB thorough) with ALL its cut points) x reader {whole, 1-byte (chunked for frames above 16 KiB), and (frames up to 4096 bytes) bufio.Reader, bytes.Reader, bytes.Buffer, strings.Reader, io.LimitReader, iotest.DataErrReader, iotest.HalfReader}: Unmarshal never succeeds, n == k == bytes handed out, cause io.EOF for k=0, io.ErrUnexpectedEOF otherwise (either for k=32), ReadHeader fails for k<32 (its count is not asserted); " +
+		"for EVERY writer failure point k<L x writer flavour {the call crossing k bytes returns a short count with an injected error | the call ENDING at k bytes returns its full count with the error (also k=L)} x {broken for good | transient: later Writes are accepted and land in the sink}: Marshal returns (k, that error) and the sink holds exactly the first k bytes (nothing handed over after the failure); for EVERY reader error point k<=L (sticky non-EOF error delivered with or after the last good byte, five chunkings): no success, no clean io.EOF and 0 <= n <= k when k<L, success at k=L; " +
 		"generated frames of 1025..4096 bytes in the quick tier: all cuts (whole reader) and all plain writer failures, the secondary readers/writers/reader errors at every 4th point + header, end, multiples of 512. " +
-		"corrupt headers: header-size field any uint64 != 32 -> ErrInvalidHeaderSize, n == 32, exactly 32 bytes consumed, version reported; body-size field in {fits, remaining+1, 2^31, 2^32, 2^36, 2^40, 2^47, 2^48, 2^62, 2^63, 2^64-1, random} over streams of 0..40 bytes and (1 in 8) of log-uniform length up to 128 KiB -> returns normally (no panic, no process death: the case is on disk while it runs), 0<=n<=len, n == consumed, success only when a complete frame is present; arbitrary bytes into Unmarshal/ReadHeader likewise. " +
+		"corrupt headers: header-size field any uint64 != 32 -> ErrInvalidHeaderSize, n == 32, exactly 32 bytes consumed, version reported; body-size field in {fits, remaining+1, 2^31, 2^32, 2^36, 2^40, 2^47, 2^48, 2^62, 2^63, 2^64-1, random} over streams of 0..40 bytes and (1 in 8) of log-uniform length up to 128 KiB -> returns normally (no panic, no process death: the case is on disk while it runs), 0<=n<=len, n == consumed, success only when a complete frame is present; arbitrary bytes into Unmarshal likewise; ReadHeader on them returns normally, fails on fewer than 32 bytes and reports the three fields of a complete frame. " +
 		"Non-trivial: a frame with a body (points strictly inside the body exist), a corrupted size field, or arbitrary input >= 32 bytes. Distinct by hash of the case; coverage.fault_points counts the enumerated (frame, point) pairs.",
 	Check:    check,
 	Classify: classify,
@@ -200,10 +200,11 @@ func checkFrame(c Case) *vk.Failure {
 				if fl := vk.TryF(func() string { return fmt.Sprintf("%s cut at %d: ReadHeader", desc, k) }, func() { hn, h, err = pbcmpl.ReadHeader(r2) }); fl != nil {
 					return fl
 				}
-				if err == nil || hn != int64(k) || r2.Consumed != k {
-					return vk.Failf("cut-readheader", "%s cut at %d: ReadHeader returned (%d, %v, %v), consumed %d", desc, k, hn, h, err, r2.Consumed)
+				if err == nil {
+					return vk.Failf("cut-readheader", "%s cut at %d: ReadHeader succeeded on %d bytes: (%d, %v, %v), consumed %d", desc, k, k, hn, h, err, r2.Consumed)
 				}
-				// (the statement fixes the error class for Unmarshal only; for ReadHeader: failure and the count)
+				// (the statement fixes the count and the error class for Unmarshal only; for ReadHeader: no panic, no
+				// success without a complete header)
 			}
 		}
 	}
@@ -327,8 +328,10 @@ func checkFrame(c Case) *vk.Failure {
 				// ... except a clean io.EOF: that is the statement's signal for "the stream ended properly, stop reading"
 				return vk.Failf("rerr-error", "%s reader failing with %v at %d (with=%v): Unmarshal reported a clean end of stream (%v)", desc, pbm.ErrInjected, k, with, err)
 			}
-			if n != int64(k) {
-				return vk.Failf("rerr-count", "%s reader error at %d (with=%v): Unmarshal returned n=%d", desc, k, with, n)
+			// the count is stated for truncation (io.EOF) only; for another reader error: a count of bytes read can
+			// not exceed what the reader handed out before it failed
+			if n < 0 || n > int64(k) {
+				return vk.Failf("rerr-count", "%s reader error at %d (with=%v): Unmarshal returned n=%d, the reader handed out %d bytes", desc, k, with, n, k)
 			}
 		}
 	}
@@ -423,9 +426,7 @@ func checkBytes(input []byte, target, mode string) *vk.Failure {
 	if fl := vk.TryF(func() string { return "ReadHeader on " + desc() }, func() { hn, h, err = pbcmpl.ReadHeader(r2) }); fl != nil {
 		return fl
 	}
-	if hn != int64(r2.Consumed) || hn < 0 || hn > 32 {
-		return vk.Failf("readheader-count", "ReadHeader on %s returned n=%d, consumed %d", desc(), hn, r2.Consumed)
-	}
+	_ = hn // (the count ReadHeader returns is not part of the statement)
 	// ReadHeader must fail without 32 bytes and must succeed on a complete frame; in between (32 bytes of
 	// anything) the statement leaves it open - an implementation may validate the fields
 	if len(input) < 32 && err == nil {
